@@ -70,6 +70,21 @@ def main(argv):
         print(f'VERIF_SEED={seed}')
         status, _ = runner.run_check(prop, tier, seed, n_runs=runs, workers=workers, first_index=first)
         return status
+    if cmd == 'one':   # debug: run one generated plan in-process and print the outcome
+        import json, time
+        mod = runner.load_check(argv[2])
+        tier = 'quick'
+        idx = int(argv[3])
+        if '--tier' in argv:
+            tier = argv[argv.index('--tier') + 1]
+        seed = int(os.environ.get('VERIF_SEED', '0'))
+        plan = runner.make_plan(mod, seed, tier, idx)
+        t0 = time.time()
+        out = runner.execute_plan(mod, plan, runner.known_open_sigs(argv[2]), cap_s=600, keep_events='--events' in argv)
+        print(json.dumps(mod.summarize(plan) if hasattr(mod, 'summarize') else plan)[:3000])
+        print(json.dumps({k: v for k, v in out.items() if k != 'draw_script'}, indent=1)[:6000])
+        print('wall', time.time() - t0)
+        return 0
     if cmd == 'replay':
         ok, msg = runner.replay_file(argv[2])
         print(msg)
